@@ -31,7 +31,11 @@ META = {
                "address/group/instance numbers, 4-bit and 8-bit parameters over their full range (symbolic)",
                "events: 5 schemes x symbolic source fields x symbolic data",
                "every table frame is first decoded under another device type (8, or 0 for rows that need a "
-               "device type), then under the row's own"],
+               "device type), then under the row's own",
+               "device/instance-scheme event frames are decoded through a map naming the type (and must be "
+               "ambiguous without an entry)",
+               "per row a second, live object of the class (fixed other arguments, constructed and decoded) "
+               "before the first one's frame is read: commands must not share frame state"],
     "stubs": ["isinstance/int shims", "SymDict registries"],
     "outside": ["appctrl/inputdev/uses_dtr* documentation flags", "parts of IEC 62386 the library does not implement",
                 "send-twice of 202 control commands 224-232/240/254 and of 209 START AUTO CALIBRATION "
